@@ -42,10 +42,11 @@ const (
 	fID          // announced id altered over the genuine header and body
 	fSig         // signature destroyed
 	fBadTx       // a transaction with a forged signature inserted, roots recomputed, re-signed
+	fHeight      // header block number raised, re-signed (not parent+1)
 	fMax
 )
 
-var forgeName = []string{"honest", "bad-state-root", "bad-receipts-root", "bad-tx-root", "altered-body-genuine-id", "altered-id-genuine-body", "bad-signature", "forged-tx-inside"}
+var forgeName = []string{"honest", "bad-state-root", "bad-receipts-root", "bad-tx-root", "altered-body-genuine-id", "altered-id-genuine-body", "bad-signature", "forged-tx-inside", "bad-height"}
 
 type blkInfo struct {
 	b       *types.Block
@@ -460,6 +461,8 @@ func (e *env) doForge(tip, back, kind int) {
 				c.Hash = h[:]
 			case fSig:
 				c.Header.Sign = flip(c.Header.Sign)
+			case fHeight:
+				c.Header.BlockNo += uint64(1 + len(seg)%3)
 			case fBadTx:
 				t := simnode.SignedTx(e.net.Accounts[0], 1, e.net.Accounts[1%len(e.net.Accounts)].Addr, big.NewInt(7), types.TxType_TRANSFER, nil, e.builders[0].ChainIDHash(), 0)
 				t.Body.Account = e.net.Accounts[1%len(e.net.Accounts)].Addr
@@ -470,7 +473,7 @@ func (e *env) doForge(tip, back, kind int) {
 		} else {
 			c.Header.PrevBlockHash = prevHash
 		}
-		resign := (i == 0 && (kind == fStateRoot || kind == fReceiptRoot || kind == fTxRoot || kind == fBadTx)) || i > 0
+		resign := (i == 0 && (kind == fStateRoot || kind == fReceiptRoot || kind == fTxRoot || kind == fBadTx || kind == fHeight)) || i > 0
 		if resign {
 			c.Header.Sign = nil
 			c.Hash = nil
@@ -574,7 +577,7 @@ func (e *env) doDeliver(l int) {
 	oldBest := e.best
 	var err error
 	pan := catch(func() { err = e.nut.AddBlock(b.b, "peer") })
-	if (b.kind == fID || b.kind == fTxRoot) && e.observe() == before {
+	if (b.kind == fID || b.kind == fTxRoot || b.kind == fHeight) && e.observe() == before {
 		// A false identifier over genuine content, or a re-signed header whose tx root does not match
 		// the body: the node may drop it at the door (nothing stored, not even as an orphan) or handle
 		// it under the digest of its own header; the model follows what the node did.
